@@ -7,6 +7,7 @@ package lexer
 // consistent (position == readPosition - 1 >= 0); chOK: l.ch is the character under the cursor.
 
 //@ func (l *Lexer) readChar()
+//@   tags C08
 //@   requires 0 <= l.readPosition
 //@   assumes nowrap: l.readPosition < 4611686018427387904 && l.line < 4611686018427387904 && l.column < 4611686018427387904
 //@   modifies l.ch, l.position, l.readPosition, l.line, l.column
@@ -15,28 +16,34 @@ package lexer
 //@   panics never
 
 //@ func (l *Lexer) peekChar() (result rune)
+//@   tags C08
 //@   requires 0 <= l.readPosition
 //@   modifies nothing
 //@   ensures @C14 peekchar.def: result == charAt(l, l.readPosition)
 //@   panics never
 
 //@ func isDigit(ch rune) (result bool)
+//@   tags C08
 //@   ensures @C14 isdigit.def: result == ('0' <= ch && ch <= '9')
 //@   panics never
 //@ func isWhitespace(ch rune) (result bool)
+//@   tags C08
 //@   ensures @C14 iswhitespace.def: result == (ch == ' ' || ch == '\t' || ch == '\n' || ch == '\r')
 //@   panics never
 //@ func isIdentifier(ch rune) (result bool)
+//@   tags C08
 //@   ensures @C14 isidentifier.def: result == (uniIsLetter(ch) || uniIsDigit(ch) || ch == '$' || ch == '_')
 //@   panics never
 
 //@ func (l *Lexer) newToken(tokenType token.Type, ch rune) (result token.Token)
+//@   tags C08
 //@   modifies nothing
 //@   ensures @C14 newtoken.def: result.Type == tokenType && result.Literal == strFromRune(ch) && result.Line == l.line && result.Column == l.column
 //@   panics never
 
 // layout: whitespace is skipped up to the first other character (or the end of the input)
 //@ func (l *Lexer) skipWhitespace()
+//@   tags C08
 //@   requires lexOK(l) && chOK(l)
 //@   modifies l.ch, l.position, l.readPosition, l.line, l.column
 //@   ensures @C14 skipws.stop: lexOK(l) && chOK(l) && !isWS(l.ch) && l.readPosition >= old(l.readPosition)
@@ -47,6 +54,7 @@ package lexer
 
 // comments: everything up to the end of the line (or of the input) is skipped, then whitespace
 //@ func (l *Lexer) skipComment()
+//@   tags C08
 //@   requires lexOK(l) && chOK(l)
 //@   modifies l.ch, l.position, l.readPosition, l.line, l.column
 //@   ensures @C14 skipcomment.stop: lexOK(l) && chOK(l) && !isWS(l.ch) && l.readPosition >= old(l.readPosition)
@@ -57,6 +65,7 @@ package lexer
 
 // numbers: the maximal run of digits
 //@ func (l *Lexer) readNumber() (result string)
+//@   tags C08
 //@   requires lexOK(l) && chOK(l)
 //@   modifies l.ch, l.position, l.readPosition, l.line, l.column
 //@   ensures @C14 readnumber.stop: lexOK(l) && chOK(l) && !('0' <= l.ch && l.ch <= '9') && l.readPosition >= old(l.readPosition)
@@ -68,6 +77,7 @@ package lexer
 //@ loop 1 decreases @C14 len(l.characters) + 1 - l.readPosition
 
 //@ func (l *Lexer) readIdentifier() (result string)
+//@   tags C08
 //@   requires lexOK(l) && chOK(l)
 //@   modifies l.ch, l.position, l.readPosition, l.line, l.column
 //@   ensures @C14 readident.stop: lexOK(l) && chOK(l) && l.readPosition >= old(l.readPosition)
@@ -77,6 +87,7 @@ package lexer
 //@ loop 1 decreases @C14 len(l.characters) + 1 - l.readPosition
 
 //@ func (l *Lexer) readDecimal() (result token.Token)
+//@   tags C08
 //@   requires lexOK(l) && chOK(l) && '0' <= l.ch && l.ch <= '9'
 //@   modifies l.ch, l.position, l.readPosition, l.line, l.column
 //@   ensures @C14 readdecimal.kind: (result.Type == token.INT || result.Type == token.FLOAT) && lexOK(l) && chOK(l) && l.readPosition > old(l.readPosition)
@@ -85,6 +96,7 @@ package lexer
 // string literals: one character, one escape or one continuation per iteration (escape table of the
 // language: \n \r \t, any other escaped character stands for itself; backslash-newline adds nothing)
 //@ func (l *Lexer) readString(delim rune) (result string, err error)
+//@   tags C08
 //@   requires lexOK(l) && chOK(l) && l.ch == delim && delim != 0
 //@   modifies l.ch, l.position, l.readPosition, l.line, l.column
 //@   ensures @C14 readstring.ok: lexOK(l) && chOK(l) && l.readPosition > old(l.readPosition)
@@ -102,6 +114,7 @@ package lexer
 
 // regexp literals: backslash takes the next character literally; the closing / may be followed by flags
 //@ func (l *Lexer) readRegexp() (result string, err error)
+//@   tags C08
 //@   requires lexOK(l) && chOK(l) && l.ch == '/'
 //@   modifies l.ch, l.position, l.readPosition, l.line, l.column
 //@   ensures @C14 readregexp.ok: lexOK(l) && chOK(l) && l.readPosition > old(l.readPosition)
@@ -117,6 +130,7 @@ package lexer
 
 // tokens: every token but EOF consumes input; a / is division exactly after ) ] identifier or number
 //@ func (l *Lexer) NextToken() (result token.Token)
+//@   tags C08
 //@   requires lexOK(l) && chOK(l)
 //@   modifies l.ch, l.position, l.readPosition, l.line, l.column, l.prevToken
 //@   ensures @C14 nexttoken.ok: lexOK(l) && chOK(l) && l.readPosition >= old(l.readPosition)
@@ -127,5 +141,6 @@ package lexer
 //@   panics never
 
 //@ func New(input string) (result *Lexer)
+//@   tags C08
 //@   ensures @C14 new.lexer: result != nil && fresh(result) && lexOK(result) && chOK(result)
 //@   panics never
